@@ -196,6 +196,11 @@ func genC07Iter(r *rand.Rand, idx int64) *c07Case {
 	c.Shape = r.IntN(16)
 	c.ShapeStr = shapeLetters(c.Shape)
 	c.M = c07MatchSizes[r.IntN(len(c07MatchSizes))]
+	large := idx%40 == 13
+	if large {
+		// more matches than any internal cap could be (page sizes above 1000 are legal)
+		c.M = []int{1001, 1002, 1500, 2300}[(idx/40)%4]
+	}
 	c.Namespaces = shuffled(r, storeNSPool)[:3]
 	g := &c07Gen{r: r, ns: c.Namespaces, shape: c.Shape}
 	g.key = &Tup{Namespace: c.Namespaces[r.IntN(2)], Object: pickS(r, c07StableObjs), Relation: pickS(r, c07StableRels)}
@@ -231,7 +236,11 @@ func genC07Iter(r *rand.Rand, idx int64) *c07Case {
 	c.stable = shuffled(r, c.stable)
 	c.NStable, c.NVolatile = len(c.stable), len(c.volatile)
 	seen := map[int]bool{}
-	for _, s := range append(append([]int(nil), c07PageSizes...), c.M-1, c.M, c.M+1) {
+	sizes := append([]int(nil), c07PageSizes...)
+	if large {
+		sizes = []int{100, 1000, 1001, 5000, 1 << 20}
+	}
+	for _, s := range append(sizes, c.M-1, c.M, c.M+1) {
 		if s >= 0 && !seen[s] {
 			seen[s] = true
 			c.PageSizes = append(c.PageSizes, s)
